@@ -79,6 +79,11 @@ func c08stress(c *Ctx) {
 		// shared values
 		sharedCallGroup := slog.Group("sg", "z", "Z", "a", "A", "m", "M", "a", "A", slog.Group("q", "y", 2, "b", 1)) // deliberately unsorted, with a duplicate
 		sharedLoggerGroup := slog.Group("lg", "w", 1, "c", 2, "k", 3, "c", 2)
+		// ... and shared values in VALUE position ("key", group / "key", attribute list), which JSON loggers print as
+		// nested objects: unsorted, with a duplicate, so every record has to sort and dedupe what it prints
+		valuePos := r.Bool()
+		sharedValueGroup := slog.Group("vg", "zz", 1, "aa", 2, "mm", 3, "aa", 2)
+		sharedValueList := slog.Attrs{slog.NewAttr("lz", 1), slog.NewAttr("la", 2), slog.NewAttr("lm", 3), slog.NewAttr("la", 2)}
 
 		log := mon.NewLog()
 		type lgT struct {
@@ -87,6 +92,7 @@ func c08stress(c *Ctx) {
 			wid    string
 			own    []string // keys of the logger's own attributes (flattened)
 			parent int
+			quiet  int // 1: the normal device is io.Discard ("only problems are kept"); 2: ... and Info has a destination of its own
 		}
 		var lgs []lgT
 		var marks []string // per logger: the literal prefix of its timestamp layout ("" = default layout)
@@ -159,7 +165,18 @@ func c08stress(c *Ctx) {
 				e.SetUTCMode(r.Bool())
 			}
 			marks = append(marks, mark)
-			lgs = append(lgs, lgT{e, f, fmt.Sprintf("W%d", i), own, parent})
+			// "only problems are kept": the normal device is io.Discard, the error device records (and, sometimes, the
+			// Info severity has a destination of its own) - what is routed to a recording destination arrives, all of it
+			quiet := 0
+			if i != fileLogger && r.P(25) {
+				quiet = 1 + r.Intn(2)
+				e.SetWriter(io.Discard)
+				if quiet == 2 {
+					e.AddLevelWriter(slog.InfoLevel, w)
+				}
+				c.R.Add("loggers_whose_normal_device_is_io_Discard", 1)
+			}
+			lgs = append(lgs, lgT{e, f, fmt.Sprintf("W%d", i), own, parent, quiet})
 		}
 		// expected key sets per logger
 		expKeys := make([][]string, nLog)
@@ -211,7 +228,7 @@ func c08stress(c *Ctx) {
 		log.Reset()
 		spyMu := &sync.Mutex{}
 		spyM := map[string]map[int]bool{}
-		var calls, ctxCalls int64
+		var calls, ctxCalls, discarded int64
 		blanks := make([]int64, nLog)
 		gotBlanks := make([]int64, nLog)
 		var wg sync.WaitGroup
@@ -247,9 +264,14 @@ func c08stress(c *Ctx) {
 							msg += fmt.Sprintf("\nl%d-%s", x+3, id)
 						}
 					}
+					lq := lgs[li].quiet
+					kept := true // the record is routed to a recording destination
 					args := []any{"id", id, "a1", id + "-a1", "n", k, sharedCallGroup, slog.Group("pc", "id", id, "x", k), "err", errShared, "spy", ctxSpy{g, spyMu, spyM}}
 					if gr.P(15) {
 						args = append(args, "serr", errorsv3.New("stack-carrying error of call %s", id)) // raised here, by this goroutine
+					}
+					if valuePos && lgs[li].f == FJSON {
+						args = append(args, "pay", sharedValueGroup, "lst", sharedValueList)
 					}
 					// jump above the pooled size hint now and then, from several goroutines at once
 					if gr.P(3) {
@@ -257,7 +279,7 @@ func c08stress(c *Ctx) {
 							args = append(args, fmt.Sprintf("x%03d", j), id)
 						}
 					}
-					if gr.P(4) { // a blank line: exactly one newline byte, formatted on the short path
+					if lq == 0 && gr.P(4) { // a blank line: exactly one newline byte, formatted on the short path
 						if gr.Bool() {
 							l.Println()
 						} else {
@@ -278,13 +300,18 @@ func c08stress(c *Ctx) {
 						switch {
 						case !withCtx && gr.P(40):
 							l.Info(msg)
+							kept = lq != 1
 						case !withCtx && gr.P(50):
 							// a printf-style verb (the message is the formatted text)
 							_ = l.Warnf("%s%s", msg[:2], msg[2:])
 						default:
 							l.WarnContext(ctx, msg)
 						}
-						mine[li] = append(mine[li], id)
+						if kept {
+							mine[li] = append(mine[li], id)
+						} else {
+							atomic.AddInt64(&discarded, 1)
+						}
 						atomic.AddInt64(&calls, 1)
 						continue
 					}
@@ -295,19 +322,26 @@ func c08stress(c *Ctx) {
 					switch x {
 					case 0:
 						l.Info(msg, args...)
+						kept = lq != 1
 					case 1:
 						l.Warn(msg, args...)
 					case 2:
 						l.InfoContext(ctx, msg, args...)
+						kept = lq != 1
 					default:
 						lv := slog.ErrorLevel
-						if gr.P(40) {
+						if lq == 0 && gr.P(40) {
 							lv = freshLevels[gr.Intn(len(freshLevels))]
 						}
 						l.LogAttrs(ctx, lv, msg, args...)
 					}
 					if withCtx {
 						atomic.AddInt64(&ctxCalls, 1)
+					}
+					if !kept {
+						atomic.AddInt64(&discarded, 1)
+						atomic.AddInt64(&calls, 1)
+						continue
 					}
 					mine[li] = append(mine[li], id)
 					atomic.AddInt64(&calls, 1)
@@ -334,7 +368,7 @@ func c08stress(c *Ctx) {
 			}
 			c.R.Add("records_read_back_from_a_NewFileWriter_file", int64(len(lines)))
 		}
-		desc := map[string]any{"file_writer_logger": fileLogger, "goroutines": G, "calls_per_goroutine": N, "gomaxprocs": procs, "loggers": nLog, "inherit": inherit, "writer_delay_us": delay, "yield": yield, "multiline": multiline, "message_lines": map[bool]int{false: 1, true: 2 + extraLines}[multiline], "context_keys": useCtx,
+		desc := map[string]any{"file_writer_logger": fileLogger, "goroutines": G, "calls_per_goroutine": N, "gomaxprocs": procs, "loggers": nLog, "inherit": inherit, "writer_delay_us": delay, "yield": yield, "multiline": multiline, "message_lines": map[bool]int{false: 1, true: 2 + extraLines}[multiline], "context_keys": useCtx, "shared_values_in_value_position": valuePos,
 			"formats": func() []string {
 				var s []string
 				for _, l := range lgs {
@@ -343,6 +377,7 @@ func c08stress(c *Ctx) {
 				return s
 			}()}
 		c.R.Add("calls", calls)
+		c.R.Add("calls_routed_to_io_Discard", discarded)
 		c.R.Add("calls_carrying_their_id_in_the_context", ctxCalls)
 		c.R.Add("write_events", int64(len(evs)))
 		c.R.Max("max_writes_in_flight", int64(log.MaxIn))
@@ -375,7 +410,7 @@ func c08stress(c *Ctx) {
 				gotBlanks[li]++
 				continue
 			}
-			id, why := c08judge(lgs[li].f, e.Data, expKeys[li], multiline, extraLines)
+			id, why := c08judge(lgs[li].f, e.Data, expKeys[li], multiline, extraLines, valuePos)
 			if why == "" && marks[li] != "" {
 				if d, err := decodeRecord(lgs[li].f, e.Data, true, false); err == nil && !strings.HasPrefix(d.Time, marks[li]) {
 					why = fmt.Sprintf("the timestamp %q does not start with %q, the literal prefix of this logger's own layout", d.Time, marks[li])
@@ -436,7 +471,7 @@ func c08stress(c *Ctx) {
 }
 
 // c08judge decodes a payload and checks that it is the complete record of one call.
-func c08judge(f Format, p []byte, ownKeys []string, multiline bool, extraLines int) (id string, why string) {
+func c08judge(f Format, p []byte, ownKeys []string, multiline bool, extraLines int, valuePos bool) (id string, why string) {
 	d, err := decodeRecord(f, p, true, false)
 	if err != nil {
 		return "", "does not decode: " + err.Error()
@@ -497,6 +532,11 @@ func c08judge(f Format, p []byte, ownKeys []string, multiline bool, extraLines i
 		return id, ""
 	}
 	want := map[string]string{"id": id, "a1": id + "-a1", "pc.id": id, "sg.a": "A", "sg.m": "M", "sg.z": "Z", "sg.q.b": "1", "sg.q.y": "2", "spy": "7"}
+	if valuePos && f == FJSON {
+		for k, v := range map[string]string{"pay.vg.aa": "2", "pay.vg.mm": "3", "pay.vg.zz": "1", "lst.la": "2", "lst.lm": "3", "lst.lz": "1"} {
+			want[k] = v
+		}
+	}
 	for k, v := range want {
 		if got[k] != v {
 			return id, fmt.Sprintf("attribute %s=%q, expected %q (attributes: %v)", k, got[k], v, briefAttrs(d.Attrs))
